@@ -176,11 +176,34 @@ struct JsonW {
             }
         }
         size_t n = doc.size();
-        // every proper prefix (every torn-write / short-read cut point)
-        for (size_t k = 0; k < n && !cx.failed; k++) expect_rejected(doc.substr(0, k), "prefix", "cut at " + std::to_string(k) + " of " + std::to_string(n));
-        qsim::probe("json.enum.prefixes", n);
+        // every proper prefix (every torn-write / short-read cut point). For the long chain documents (hundreds or
+        // thousands of nested containers) every cut inside and just before the run of closers at the end, and every
+        // 16th elsewhere: a parse is linear in the text, all cuts would be quadratic.
+        size_t run_start = n, long_doc = n > 1500;
+        if (long_doc) {
+            size_t t = 0;
+            while (t < n && (doc[n - 1 - t] == ']' || doc[n - 1 - t] == '}')) t++;
+            run_start = n - t;
+        }
+        size_t cuts = 0;
+        for (size_t k = 0; k < n && !cx.failed; k++) {
+            // dense around the innermost value / the first closers and over the last closers, every 16th cut elsewhere
+            bool dense = !long_doc || (k + 24 >= run_start && k < run_start + 64) || k + 64 >= n;
+            if (!dense && (k % 16) != 0) continue;
+            expect_rejected(doc.substr(0, k), "prefix", "cut at " + std::to_string(k) + " of " + std::to_string(n));
+            cuts++;
+        }
+        qsim::probe("json.enum.prefixes", cuts);
         // every closing bracket replaced by the other kind / removed
         std::vector<size_t> cl = closer_positions(doc);
+        if (cl.size() > 96) {
+            // chain document: the first 16, the last 48 and 32 spread over the rest
+            std::vector<size_t> pick(cl.begin(), cl.begin() + 16);
+            size_t              mid = cl.size() - 64;
+            for (size_t i = 0; i < 32; i++) pick.push_back(cl[16 + (i * mid) / 32]);
+            pick.insert(pick.end(), cl.end() - 48, cl.end());
+            cl = pick;
+        }
         for (size_t i = 0; i < cl.size() && !cx.failed; i++) {
             U32 t = doc;
             t[cl[i]] = (t[cl[i]] == '}') ? ']' : '}';
@@ -446,6 +469,15 @@ static void generate_mix(Plan &plan, uint64_t seed, int tier, bool enum_only) {
         if (doc.size() > cap) {
             JsonGen g2(ops, width, 6);
             doc = g2.document(2);
+        }
+        if (mode == M_ENUM && cfg.chance(1, 250)) {
+            // a chain of nested containers whose depth sits at a power of two or next to it: where a counter, a depth
+            // guard or a scratch array of the parser would wrap or trip (the recursion itself fits an 8 MiB stack
+            // several times over at these depths)
+            static const int depths[] = {15, 16, 17, 31, 32, 33, 63, 64, 65, 127, 128, 129, 255, 256, 257, 511, 512, 513, 1023, 1024, 1025, 1026};
+            doc = deep_document(ops, (size_t)depths[cfg.below(sizeof(depths) / sizeof(depths[0]))]);
+            plan.cfg["stack_kb"] = 8192;
+            qsim::probe("json.enum.chain-documents");
         }
         JsonGen go(ops, width, 12);
         U32     other = go.document(3);
